@@ -106,6 +106,13 @@ def c01(tier, seed):
                         ['--cfg=%s-tight' % name, '--readers=1', '--updaters=1', '--gps=%d' % (gps * 3),
                          '--tight=1', '--reader-delay=0', '--nest=1', '--updaters-registered=0'] + extra,
                         env, cpus=2, timeout=240 * scale))
+        if fl in ('memb', 'bp') and not env:
+            # x86-TSO store-buffer stress: the reader's rcu_read_lock() store queues behind stores to contended cache
+            # lines; only the updater's sys_membarrier (these flavors have no read-side fence) makes it visible in time
+            out.append(case('sbstress-%s' % name, 'gp', fl, 'plain',
+                            ['--cfg=%s-sbstress' % name, '--readers=1', '--updaters=1', '--gps=%d' % (gps * 12), '--tight=1',
+                             '--reader-delay=0', '--nest=1', '--updaters-registered=0', '--sb-lines=24', '--slots=1', '--placement=0'] + extra,
+                            env, cpus=5, timeout=240 * scale))
         out.append(case('asan-%s' % name, 'gp', fl, 'asan',
                         ['--cfg=%s' % name, '--readers=4', '--updaters=2', '--gps=%d' % (gps // 3)] + extra,
                         env, cpus=6, timeout=300 * scale))
